@@ -574,6 +574,52 @@ func (fc *FCtx) specCall(n *SNode, env *Env) Val {
 	case "enc":
 		evalArgs()
 		return Val{T: app(fc.encFn(args[0].S), args[0].T), S: fc.U.BzSort()}
+	case "bzslice":
+		evalArgs()
+		return Val{T: fmt.Sprintf("(bz_slice %s %s %s)", fc.toBz(args[0]), args[1].T, args[2].T), S: fc.U.BzSort()}
+	case "anybox":
+		evalArgs()
+		if args[0].GoT == nil {
+			oos("spec: anybox needs a value with a known Go type")
+		}
+		is := fc.U.opaque("I_any")
+		return fc.box(args[0], is, nil)
+	case "list":
+		evalArgs()
+		if len(args) == 0 {
+			oos("spec: list() needs elements")
+		}
+		es := args[0].S
+		ss := fc.U.sliceSort(es)
+		arr := fc.constArray("Int", es, fc.zeroTerm(es, args[0].GoT))
+		for i, a := range args {
+			arr = fmt.Sprintf("(store %s %d %s)", arr, i, a.T)
+		}
+		n := fmt.Sprint(len(args))
+		return Val{T: mkSlice(ss, n, n, arr), S: ss}
+	case "absfn":
+		if n.Args[1].Op != "str" {
+			oos("spec: absfn() needs a function name string")
+		}
+		var as []Val
+		var sorts []*Sort
+		var ts []string
+		for _, a := range n.Args[2:] {
+			v := fc.specEval(a, env)
+			as = append(as, v)
+			sorts = append(sorts, v.S)
+			ts = append(ts, v.T)
+		}
+		fo := fc.lookupFuncByName(env.pkg, n.Args[1].Name)
+		if fo == nil {
+			oos("spec: absfn: unknown function %q", n.Args[1].Name)
+		}
+		sg := fo.Type().(*types.Signature)
+		rt := sg.Results().At(0).Type()
+		rs := fc.U.SortOf(rt)
+		fname := extFnName(fo.FullName(), sorts, 0)
+		fc.U.Fun(fname, sorts, rs)
+		return Val{T: app(fname, ts...), S: rs, GoT: rt}
 	case "ext":
 		if n.Args[1].Op != "str" {
 			oos("spec: ext() needs a function alias string")
@@ -592,7 +638,11 @@ func (fc *FCtx) specCall(n *SNode, env *Env) Val {
 			ts = append(ts, v.T)
 		}
 		rs, rt := fc.resolveSpecType(al.ret, env.pkg)
-		fname := extFnName(al.full, sorts, 0)
+		ridx := 0
+		if k := strings.Index(n.Args[1].Name, "#"); k >= 0 {
+			fmt.Sscan(n.Args[1].Name[k+1:], &ridx)
+		}
+		fname := extFnName(al.full, sorts, ridx)
 		fc.U.Fun(fname, sorts, rs)
 		return Val{T: app(fname, ts...), S: rs, GoT: rt}
 	case "with":
@@ -711,6 +761,12 @@ func (fc *FCtx) specCall(n *SNode, env *Env) Val {
 	case "wrapu64":
 		evalArgs()
 		return Val{T: app("wrap_uint64", args[0].T), S: SInt}
+	case "wrapu32":
+		evalArgs()
+		return Val{T: app("wrap_uint32", args[0].T), S: SInt}
+	case "wrapu8":
+		evalArgs()
+		return Val{T: app("wrap_uint8", args[0].T), S: SInt}
 	case "inInt64":
 		evalArgs()
 		return Val{T: app("in_int64", args[0].T), S: SBool}
@@ -785,6 +841,8 @@ func (fc *FCtx) specMethod(recv Val, name string, args []Val) (Val, bool) {
 			return Val{T: fmt.Sprintf("(div %s 1000000000)", recv.T), S: SInt}, true
 		case "UnixNano":
 			return Val{T: recv.T, S: SInt}, true
+		case "Nanosecond":
+			return Val{T: fmt.Sprintf("(mod %s 1000000000)", recv.T), S: SInt}, true
 		case "IsZero":
 			if recv.GoT != nil && isTime(recv.GoT) {
 				return Val{T: fmt.Sprintf("(= %s %s)", recv.T, timeZeroNs), S: SBool}, true
@@ -918,4 +976,36 @@ func (fc *FCtx) specKeyFn(n *SNode, env *Env) (string, *types.Signature) {
 		oos("spec: key function %s not loaded", key)
 	}
 	return key, fi.Sig
+}
+
+// lookupFuncByName resolves "Func", "Type.Method", "pkg.Func" or "pkg.Type.Method" from a spec.
+func (fc *FCtx) lookupFuncByName(pkg *packages.Package, name string) *types.Func {
+	parts := strings.Split(name, ".")
+	scope := pkg.Types.Scope()
+	if len(parts) >= 2 {
+		if imp := fc.importByName(pkg, parts[0]); imp != nil {
+			scope = imp.Scope()
+			parts = parts[1:]
+		}
+	}
+	switch len(parts) {
+	case 1:
+		if f, ok := scope.Lookup(parts[0]).(*types.Func); ok {
+			return f
+		}
+	case 2:
+		if tn, ok := scope.Lookup(parts[0]).(*types.TypeName); ok {
+			for _, t := range []types.Type{tn.Type(), types.NewPointer(tn.Type())} {
+				ms := types.NewMethodSet(t)
+				for i := 0; i < ms.Len(); i++ {
+					if ms.At(i).Obj().Name() == parts[1] {
+						if f, ok := ms.At(i).Obj().(*types.Func); ok {
+							return f
+						}
+					}
+				}
+			}
+		}
+	}
+	return nil
 }
